@@ -472,6 +472,19 @@ def mapping_length_exact(chk, rule: str):
                   f"`{src(n)}` under {g}: the field would not have the length of the mapping entry (read/save no longer round-trip, neighbouring fields shift)")
     for c in find_calls(av.node, "self._get_variable"):
         chk.check([src(a) for a in c.args] == ["index", "subindex"], rule, f"{PB}:PdoMap.add_variable | object looked up by the given index and sub-index", av.loc(c), src(c))
+    # every entry is a variable made for this mapping: an object carried over from an earlier mapping keeps the bit length (and
+    # offset) it had there, unless add_variable sets all of it again
+    cls = repo.cls(PB, "PdoMap", f"{chk.prop}.{rule}")
+    gv = cls.methods.get("_get_variable") or cls.methods.get("_PdoMap__get_variable")
+    host = gv if gv is not None else av
+    rets = [r for r in own_nodes(host.node) if isinstance(r, ast.Return) and isinstance(r.value, ast.Name)] if gv is not None else []
+    names = {r.value.id for r in rets} if gv is not None else {"var"}
+    for nm in sorted(names):
+        defs = [n for n in own_nodes(host.node) if isinstance(n, ast.Assign) and any(isinstance(t, ast.Name) and t.id == nm for t in n.targets)]
+        stale = [d for d in defs if not (isinstance(d.value, ast.Call) and (dotted(d.value.func) or "").split(".")[-1] in ("PdoVariable", "_get_variable", "_PdoMap__get_variable"))]
+        chk.check(bool(defs) and not stale, rule, f"{PB}:{host.qualname} | each mapping entry is a new PdoVariable", host.loc(stale[0]) if stale else host.loc(),
+                  f"`{src(stale[0])[:60]}` hands out an existing object for the new entry: it keeps the bit length of the mapping it was made for (a 4-bit field stays 4 bits when the "
+                  f"object is mapped again whole), so offsets and the frame length come out wrong" if stale else "no definition found")
 
 
 def fill_map_complete(chk, rule: str):
@@ -809,3 +822,21 @@ def sdo_address_unchanged(chk, rule: str):
                           f"`{src(st)[:60]}` replaces the {nm} given by the caller (conditions {[(src(e), p) for e, p in facts]}): the request on the wire addresses another object "
                           f"than the one asked for")
     chk.ok(rule, f"{CLI} | index / subindex reach the request unchanged", CLI, f"{n} functions scanned")
+
+
+def pdo_collection_lookup(chk, rule: str):
+    """PdoBase.__getitem__ (tpdo['Name'], rpdo[0x6041]) searches the maps as they are now, in map order: every `<m>[key]` it evaluates
+    has <m> bound by the loop over self.map.values() -- a remembered answer (a cache of where the key was found last time) goes
+    stale when an earlier map gains the object or the remembered map loses it."""
+    repo, folder = ctx(chk)
+    from .common import enclosing
+    f = repo.func(PB, "PdoBase.__getitem__", f"{chk.prop}.{rule}")
+    chk.saw(f)
+    key = f.params[1] if len(f.params) > 1 else "key"
+    subs = [n for n in ast.walk(f.node) if isinstance(n, ast.Subscript) and isinstance(n.ctx, ast.Load) and isinstance(n.value, ast.Name) and src(n.slice) == key]
+    chk.floor(rule, len(subs), 1, "per-map lookups in PdoBase.__getitem__")
+    for n in subs:
+        loops = [lp for lp in enclosing(f.node, n, (ast.For,)) if isinstance(lp.target, ast.Name) and lp.target.id == n.value.id]
+        ok = any(src(lp.iter) in ("self.map.values()", "list(self.map.values())", "tuple(self.map.values())") for lp in loops)
+        chk.check(ok, rule, f"{PB}:PdoBase.__getitem__ | `{src(n)}` looks into a map of the current search", f.loc(n),
+                  f"`{n.value.id}` is not bound by a loop over self.map.values() here: the answer comes from somewhere else than the maps in their current order and configuration")
